@@ -489,6 +489,12 @@ func (s *Store) GC(ctx context.Context) error {
 	if err != nil {
 		return fmt.Errorf("unable to reload index: %w", err)
 	}
+	if s.AutoSaveIndex {
+		// persist the reloaded index before removing blobs it no longer lists
+		if err := s.saveIndex(); err != nil {
+			return err
+		}
+	}
 	reachableNodes := s.graph.DigestSet()
 
 	// clean up garbage blobs in the storage
